@@ -35,6 +35,27 @@ fn eval_subset(u: &Universe, idx: &[usize]) -> Result<bool, String> {
     }
     let nsrc = idx.iter().filter(|&&i| (u.esis[i] as usize) < k).count();
     let expect = nsrc == k || ech.full();
+    // the same set delivered in two calls: the K highest ESIs first (an attempt that may fail), then the rest
+    // (mostly source symbols). What arrived must not matter, only the set.
+    if idx.len() > k {
+        let h = idx.len() - k;
+        let mut d2 = new_block_decoder(u.k, 1, Some(u.threshold));
+        let first: Vec<_> = idx[h..].iter().map(|&i| u.packets[i].clone()).collect();
+        let second: Vec<_> = idx[..h].iter().map(|&i| u.packets[i].clone()).collect();
+        let r2 = guarded(|| {
+            let a = d2.decode(first);
+            if a.is_some() { a } else { d2.decode(second) }
+        })
+        .map_err(|e| format!("decode panicked (two calls): {}", e))?;
+        if r2.is_some() != r.is_some() {
+            return Err(format!("the set decodes = {} when handed over in one call but = {} when the K highest ESIs come first and the other {} afterwards", r.is_some(), r2.is_some(), h));
+        }
+        if let Some(d) = &r2 {
+            if d != &u.data {
+                return Err("wrong bytes (two calls)".into());
+            }
+        }
+    }
     match r {
         None if expect => Err(format!("decoder failed on a decodable set (rank {} = L)", ech.rank)),
         Some(_) if !expect => Err(format!("decoder answered although rank {} < L {}", ech.rank, u.p.L)),
@@ -209,7 +230,7 @@ pub fn run(ctx: &Ctx) -> i32 {
     let _ = rfcref::params_for_k(10);
     finish(ctx, &st, Finish {
         level: "exploration",
-        rule: format!("for the fixed universes (K,n,sparse threshold) = {:?} (K source symbols + n-K repair symbols, half consecutive from ESI K, half at fixed ESIs spread over the 24-bit range): EVERY subset of size K, K+1, K+2 that does not contain all source symbols is decoded by a fresh real SourceBlockDecoder; (i) None must coincide with rank_GF(256) < L by the independent reference, (ii) exact aggregate failure fractions must be < 1% (h=0), < 0.01% (h=1), < 0.001% (h=2) and non-increasing in h. Counts are exact, nothing is sampled.", universes(ctx.quick())),
+        rule: format!("for the fixed universes (K,n,sparse threshold) = {:?} (K source symbols + n-K repair symbols, half consecutive from ESI K, half at fixed ESIs spread over the 24-bit range): EVERY subset of size K, K+1, K+2 that does not contain all source symbols is decoded by a fresh real SourceBlockDecoder in one call and, for K+1 and K+2, by a second one in two calls (the K highest ESIs first, the rest afterwards: the outcome may depend on the set only); (i) None must coincide with rank_GF(256) < L by the independent reference, (ii) exact aggregate failure fractions must be < 1% (h=0), < 0.01% (h=1), < 0.001% (h=2) and non-increasing in h. Counts are exact, nothing is sampled.", universes(ctx.quick())),
         exhaustive: true,
         assumptions: vec!["C03 is a statement about a distribution over all K and all 2^24-symbol universes; enumeration decides it only for the listed finite universes (DESIGN.md section 7)".into(), "the outcome is a deterministic function of RFC 6330 and the fixed universes".into()],
         extra: Map::new(),
